@@ -29,7 +29,7 @@ def write(verif, props):
             "engine": "websim" if pid in ("C16", "C17") else "mon",
             "level_claimed": {
                 "category": "exploration",
-                "text": sp["level_text"],
+                "text": sp["level_text"] + ((" " + sp["level_more"]) if sp.get("level_more") else ""),
                 "design_ref": sp["design_ref"],
             },
             "level_note": sp["level_note"],
